@@ -43,7 +43,7 @@ def load_all():
 def closure_of(reg, prop):
     out = []
     for fqn, c in reg.contracts.items():
-        if fqn.startswith("abstract:"):
+        if fqn.startswith("abstract:") or c.assumed:
             continue
         if prop in c.props or prop == "ALL":
             out.append(fqn)
